@@ -159,6 +159,12 @@ type Frame struct {
 	isDefer    bool
 	headerDone bool
 	wrapAwait  bool
+	names      map[string]nameRef // source names of locals (from DebugRef)
+}
+
+type nameRef struct {
+	V      ssa.Value
+	IsAddr bool
 }
 
 type deferred struct {
@@ -188,6 +194,10 @@ func (s *State) clone() *State {
 			nf.cut[k] = v
 		}
 		nf.defers = append([]deferred(nil), f.defers...)
+		nf.names = make(map[string]nameRef, len(f.names))
+		for k, v := range f.names {
+			nf.names[k] = v
+		}
 		n.frames[i] = &nf
 	}
 	if s.ghost != nil {
